@@ -4,7 +4,7 @@
    header of Gen/C07_gen.v and the evidence notes). *)
 From Coq Require Import List ZArith QArith Bool.
 From DV Require Import Base.PyList Base.C07_Num Model.C07_Spea2 Model.C07_RefPoints Model.C07_GenRt Gen.C07_gen
-                       Proofs.C07_SelectGen Proofs.C07_gen_equiv.
+                       Proofs.C07_SelectGen Proofs.C07_Spea2 Proofs.C07_gen_equiv.
 Import ListNotations.
 Local Open Scope nat_scope.
 
@@ -14,7 +14,9 @@ Theorem C07_gen_source_is_model :
   (forall {T} (Op : numops T) arr b e ds,
      gen_randomizedPartition Op arr b e ds = let '(r, ds') := randint b e ds in (rand_partition Op arr b e r, ds')) /\
   (forall {T} (Op : numops T) fuel arr b e i ds,
-     gen_randomizedSelect Op fuel arr b e i ds = rand_select Op fuel arr b e i ds).
+     gen_randomizedSelect Op fuel arr b e i ds = rand_select Op fuel arr b e i ds) /\
+  (forall {T} (Op : numops T) inds k ds,
+     gen_selSPEA2 Op inds k ds = spea2 Op (map fst inds) (map snd inds) k ds).
 Proof. exact source_is_model. Qed.
 Print Assumptions C07_gen_source_is_model.
 
@@ -51,6 +53,30 @@ Theorem C07_gen_rand_select_is_kth : forall (arr : list qx) (i : Z) draws,
   qx_ltb (kth_smallest qx_ops arr i) v = false /\ qx_ltb v (kth_smallest qx_ops arr i) = false.
 Proof. exact gen_rand_select_is_kth. Qed.
 Print Assumptions C07_gen_rand_select_is_kth.
+
+(* C07_spea2_generic on the regenerated selSPEA2 (an individual is the pair (fitness.values, fitness.wvalues), the result is
+   the list of chosen indices): exactly k distinct input individuals; all non-dominated ones when there are at most k,
+   only non-dominated ones when there are at least k; for every numeric instance with asymmetric <, all draws *)
+Theorem C07_gen_spea2_generic : forall {T} (Op : numops T),
+  (forall x y, n_ltb Op x y = true -> n_ltb Op y x = false) ->
+  forall (inds : list (list T * list T)) k draws, dist_ok Op (map fst inds) -> 1 <= k <= length inds ->
+  let wvals := map snd inds in
+  let r := fst (gen_selSPEA2 Op inds k draws) in
+  length r = k /\ NoDup r /\ (forall i, In i r -> i < length inds) /\
+  (length (nd_list Op wvals) <= k -> incl (nd_list Op wvals) r) /\
+  (k <= length (nd_list Op wvals) -> incl r (nd_list Op wvals)).
+Proof. intros T Op H. exact (gen_spea2_spec Op H). Qed.
+Print Assumptions C07_gen_spea2_generic.
+
+(* C07_spea2_size_refs / _all_nd_when_few / _only_nd_when_many on the regenerated selSPEA2: exact instance, finite values *)
+Theorem C07_gen_spea2_exact : forall (vq : list (list Q)) (wvals : list (list qx)) k draws,
+  length vq = length wvals -> 1 <= k <= length wvals ->
+  let r := fst (gen_selSPEA2 qx_ops (combine (map (map QF) vq) wvals) k draws) in
+  length r = k /\ NoDup r /\ (forall i, In i r -> i < length wvals) /\
+  (length (nd_list qx_ops wvals) <= k -> incl (nd_list qx_ops wvals) r) /\
+  (k <= length (nd_list qx_ops wvals) -> incl r (nd_list qx_ops wvals)).
+Proof. exact gen_spea2_exact. Qed.
+Print Assumptions C07_gen_spea2_exact.
 
 (* non-vacuity: the regenerated _randomizedSelect evaluated on a valid pivot sequence *)
 Example C07_gen_select_example :
